@@ -166,6 +166,9 @@ func newTTLVReader(buf []byte) (*ttlvReader, error) {
 }
 
 func (dec *ttlvReader) Next() error {
+	if len(dec.buf) == 0 {
+		return ErrEOF
+	}
 	dec.buf = dec.buf[8+dec.paddedLen():]
 	return dec.validate()
 }
@@ -186,8 +189,25 @@ func (dec *ttlvReader) validate() error {
 	if len(dec.buf[8:]) < dec.paddedLen() {
 		return Errorf("TTLV value too short. Got %d bytes, expected %d", len(dec.buf[8:]), dec.paddedLen())
 	}
-	if ty := dec.Type(); ty > TypeInterval || ty == 0 {
+	ty := dec.Type()
+	if ty > TypeInterval || ty == 0 {
 		return Errorf("invalid TTLV type %s", ty)
+	}
+	// Fixed-width types must carry exactly their specified length, and a big integer
+	// cannot be empty, otherwise reading the value would go past its declared extent.
+	switch ty {
+	case TypeInteger, TypeEnumeration, TypeInterval:
+		if dec.len() != 4 {
+			return Errorf("invalid length %d for TTLV type %s", dec.len(), ty)
+		}
+	case TypeLongInteger, TypeBoolean, TypeDateTime:
+		if dec.len() != 8 {
+			return Errorf("invalid length %d for TTLV type %s", dec.len(), ty)
+		}
+	case TypeBigInteger:
+		if dec.len() == 0 {
+			return Errorf("invalid length %d for TTLV type %s", dec.len(), ty)
+		}
 	}
 	// if th := (dec.Tag() >> 16) & 0xFF; th != 0x42 && th != 0x54 {
 	// 	return Errorf("invalid TTLV tag %X", dec.Tag())
